@@ -30,7 +30,8 @@ RULE = ("(signature, context, wrapper kind, logical call, spelling); non-trivial
 ASSUMPTIONS = [
     "standalone parse of one value = utype.type_transform(value, annotation) (conversion itself is judged by C01/C02; this check judges binding)",
     "declared defaults are handed to the body as they are (trusted, not converted)",
-    "documented deviations excluded by construction: Param() without default is required; private (_x) parameters; generators yielding generators; addition options on functions without **kwargs",
+    "documented deviations excluded by construction: Param() without default is required; generators yielding generators; addition options on functions without **kwargs",
+    "private (_x) positional parameters follow docs/en/guide/func.md 'Private parameters': not parsed (given by position they arrive as they are), ignored when given by name (only generated with a default to stand and without **kwargs), their own default when omitted",
     "coroutines and async generators are driven without an event loop (send(None)), so runs are deterministic",
 ]
 SHARDS = {"quick": 4, "thorough": 16}
@@ -79,8 +80,11 @@ def validate_sig(sig):
         last = -1
         seen_default = False
         for p in sig["params"]:
-            if p["kind"] not in order or p["ann"] not in ANNS or not p["name"].isidentifier() or p["name"] in names or p["name"].startswith("_"):
+            if p["kind"] not in order or p["ann"] not in ANNS or not p["name"].isidentifier() or p["name"] in names or p["name"].startswith("_") != bool(p.get("priv")):
                 raise HarnessError("bad param")
+            if p.get("priv") and (p["kind"] not in ("posonly", "pos") or p.get("alias") or p.get("alias_from") or p.get("ci") or p.get("no_input")
+                                  or (p.get("default") or {}).get("form", "plain") != "plain"):
+                raise HarnessError("a private parameter is positional, with a plain default or none")
             if p["name"] in ("self", "cls", "REC", "args", "kw") and p["kind"] not in ("varargs", "varkw"):
                 raise HarnessError("reserved name")
             names.add(p["name"])
@@ -376,14 +380,23 @@ def run_case(case):
                 if n in assign:
                     v = codec.decode(assign[n])
                     r = parse_one(T[p["ann"]], v)
-                    if p.get("no_input"):
+                    how = spell.get(n, "position" if k in ("posonly", "pos") else "name")
+                    if p.get("priv"):
+                        # documented ('Private parameters'): takes no part in parsing - given by position it arrives as it is,
+                        # given by name it is ignored (the default stands)
+                        if how == "position" or k == "posonly":
+                            expected[n] = v
+                        elif not p.get("default") or any(q["kind"] == "varkw" for q in sig["params"]):
+                            raise HarnessError("a private parameter by name needs a default and no **kwargs")
+                        else:
+                            expected[n] = codec.decode(p["default"]["v"])
+                    elif p.get("no_input"):
                         # documented: the parameter takes no input - it receives its default whatever (and however) the call passes it
                         expected[n] = codec.decode(p["default"]["v"])
                     elif r[0] != "ok":
                         invalid.append(n)
                     else:
                         expected[n] = r[1]
-                    how = spell.get(n, "position" if k in ("posonly", "pos") else "name")
                     if k == "posonly" or (how == "position" and k == "pos"):
                         if not positional_open:
                             raise HarnessError("positional after keyword")
@@ -446,7 +459,7 @@ def run_case(case):
             return {"status": "refused", "fails": fails, "kinds": kinds}
         for n, want in expected.items():
             if n not in got or not oracle.equal(oracle.plain(got[n]), oracle.plain(want)):
-                fails.append((f"binding-differs/{by[n]['kind']}/{_how(by[n], assign, spell)}/{wrapper}",
+                fails.append((f"binding-differs/{by[n]['kind']}/{_how(by[n], assign, spell)}/{wrapper}{'/private' if by[n].get('priv') else ''}",
                               dict(det, parameter=n, expected=codec.encode(oracle.plain(want)), received=codec.encode(oracle.plain(got.get(n))))))
                 break
         # return / generator protocol
@@ -550,13 +563,16 @@ def cases(draw):
         for _ in range(cnt):
             ann = draw(st.sampled_from(list(ANNS)))
             p = {"name": next(names), "kind": kind, "ann": ann}
+            priv = draw(st.sampled_from([False] * 5 + [True]))
+            if priv:
+                p["name"], p["priv"] = "_" + p["name"], True
             if defaults_started or draw(st.sampled_from([False, False, True])):
                 defaults_started = True
                 good = [v for v in VALS[ann][:2]]
-                p["default"] = {"form": draw(st.sampled_from(["plain", "param", "factory"])), "v": draw(st.sampled_from(good))}
+                p["default"] = {"form": "plain" if priv else draw(st.sampled_from(["plain", "param", "factory"])), "v": draw(st.sampled_from(good))}
             if p.get("default", {}).get("form") in ("param", "factory") and draw(st.sampled_from([False, False, False, True])):
                 p["no_input"] = True
-            if kind == "pos" and draw(st.sampled_from([False, False, True])):
+            if kind == "pos" and not priv and draw(st.sampled_from([False, False, True])):
                 if draw(st.booleans()):
                     p["alias_from"] = [p["name"].upper() + "_alt"]
                 else:
@@ -618,6 +634,12 @@ def cases(draw):
             assign[n] = v
             if k == "pos":
                 how = "position" if not keyword_mode and draw(st.booleans()) else draw(st.sampled_from(["name", "name", "alias", "case"]))
+                if p.get("priv") and how != "position" and (has_kw or not p.get("default")):
+                    # (by name a private parameter is documented as ignored: only meaningful with a default to stand)
+                    how = "position"
+                    if keyword_mode:
+                        del assign[n]
+                        continue
                 if how != "position":
                     keyword_mode = True
                 spell[n] = how
@@ -655,6 +677,8 @@ def campaign(ctx):
         sig = case["sig"]
         ctx.label(f"wrapper_{sig['wrapper']}")
         ctx.label(f"context_{sig['context']}")
+        if any(p.get("priv") for p in sig["params"]):
+            ctx.label("private_parameter_" + ("omitted" if any(p.get("priv") and p["name"] not in case["assign"] for p in sig["params"]) else "given"))
         if r["status"] in ("accepted", "rejected"):
             kinds = {p["kind"] for p in sig["params"]}
             nondefault = any(v != "position" for v in case["spell"].values()) or r.get("converted")
